@@ -104,6 +104,26 @@ def _work(units):
                     viol.append({"kind": "z:conservative", "case": {"alpha": repr(a)}, "observed": repr(z), "why": f"z must be >= the true normal quantile {zt!r}"})
                 if abs(z - z2) > C * (8 * EPS + 8 * EPS * abs(math.log(a / (1 - a)))):
                     viol.append({"kind": "z:symmetry", "case": {"alpha": repr(a)}, "observed": repr((z, z2)), "why": "probit(alpha) must equal probit(1-alpha)"})
+        elif u[0] == "zpairs":
+            # exact complementary pairs at the extremes: alpha = 2^-e and 1 - 2^-e (both exact doubles for e <= 53)
+            for e in range(1, 54):
+                a, b = 2.0**-e, 1 - 2.0**-e
+                if not (0 < b < 1):
+                    continue
+                n_eval += 2
+                try:
+                    z, z2 = stats.probit(a), stats.probit(b)
+                except Exception as ex:  # noqa
+                    viol.append({"kind": "z:raises", "case": {"alpha": repr(a)}, "observed": f"{type(ex).__name__}: {ex}"})
+                    continue
+                outs.add(z)
+                if abs(z - z2) > C * (8 * EPS + 8 * EPS * abs(math.log(a / (1 - a)))) + 1e-12 * z:
+                    viol.append({"kind": "z:symmetry", "case": {"alpha": repr(a)}, "observed": repr((z, z2)), "why": "probit(alpha) must equal probit(1-alpha)"})
+            for a in (math.nextafter(0.5, 1), math.nextafter(0.5, 0), 0.5):
+                n_eval += 1
+                z = stats.probit(a)
+                if not (0 <= z < 1e-15):
+                    viol.append({"kind": "z:conservative", "case": {"alpha": repr(a)}, "observed": repr(z), "why": "z next to alpha = 1/2 must be ~0 and non-negative"})
         elif u[0] == "ztail":
             nd = NormalDist()
             for e in range(1, 301):
@@ -121,10 +141,21 @@ def _work(units):
 def run(res, tier):
     bits = 15 if tier == "quick" else 19
     step = 1 << 11
-    units = [("ci", m, p) for m in METHODS for p in PS] + [("unknown",), ("ztail",)]
+    units = [("ci", m, p) for m in METHODS for p in PS] + [("unknown",), ("ztail",), ("zpairs",)]
     units += [("z", lo, min(lo + step, 1 << bits), bits) for lo in range(1, 1 << bits, step)]
     for w in pmap(_work, permuted(units, "c18"), chunk=2):
         res.merge_worker(w)
+    # the same contract with asserts / `if __debug__:` compiled out (python -O, -OO)
+    from ..common import run_in_flagged_child
+
+    sub = [["unknown"], ["zpairs"], ["ci", "wald", 0.5], ["ci", "agresti-coull", 0.1]]
+    for flags in (("-O",), ("-OO",)):
+        r = run_in_flagged_child("mc.checks.c18", "_work", sub, flags)
+        res.add("evaluations", r["cov"]["evaluations"])
+        for v in r["viol"]:
+            v["interpreter_flags"] = list(flags)
+            res.violation(v)
+        res.outcomes.add(("flags", flags))
     res.set("distinct_nontrivial", len(res.outcomes))
     res.set("bounds", {"n_values": len(NS), "p_values": len(PS), "confidences": len(CONFS), "alpha_grid_bits": bits})
     res.sample({"n": 10, "p": 0.5, "confidence": 0.95, "method": "agresti-coull", "interval": stats.confidence_interval(10, 0.5, 0.95)})
@@ -137,11 +168,17 @@ def replay(data):
     out = None
     k = data["kind"]
     c = data["case"]
-    if k.startswith("ci"):
+    if k.startswith("ci") and not data.get("interpreter_flags"):
         u = [("ci", c["method"], c["p"])] if k != "ci:unknown-method" else [("unknown",)]
         r = _work(u)
         bad = r["cov"]["violating_cases"]
         return bool(bad), f"{bad} violating grid points for method={c['method']} p={c.get('p')}"
+    if data.get("interpreter_flags"):
+        from ..common import run_in_flagged_child
+
+        u = [["unknown"]] if k == "ci:unknown-method" else ([["ci", c["method"], c["p"]]] if k.startswith("ci") else [["zpairs"]])
+        r = run_in_flagged_child("mc.checks.c18", "_work", u, tuple(data["interpreter_flags"]))
+        return bool(r["viol"]), f"under {data['interpreter_flags']}: {len(r['viol'])} violations"
     a = float(c["alpha"])
     z = stats.probit(a)
     zt = abs(NormalDist().inv_cdf(a))
